@@ -497,7 +497,27 @@ def run_menu(idx):
 
 import itertools as _it
 
-CALL_SCOPES = [None, {'k': 1}, {'j': 2}, {'k': 3, 'j': 4}]
+CALL_SCOPES = [None, {'k': 1}, {'j': 2}, {'k': 3, 'j': 4}, ('chainmap', {'k': 'front'}, {'k': 'back', 'j': 'back-j'})]     # a layered mapping: the front layer wins
+
+
+def mk_call_scope(c):
+    from collections import ChainMap
+    if c is None:
+        return None
+    if isinstance(c, tuple):
+        return ChainMap(*[dict(layer) for layer in c[1:]])
+    return dict(c)
+
+
+def flat_call_scope(c):
+    if c is None:
+        return {}
+    if isinstance(c, tuple):
+        out = {}
+        for layer in reversed(c[1:]):
+            out.update(layer)
+        return out
+    return dict(c)
 OWN_SCOPES = [None, {}, {'k': 'own'}, {'j': 'own', 'm': 'own'}]
 VARIANTS = ['reader', 'reader-then-bind']
 
@@ -519,9 +539,9 @@ def run_entry(case):
         sp = Iter().first(Coalesce(S.k, default=None))
     n = 0
     for i, (entry, ci) in enumerate(steps):
-        call = None if CALL_SCOPES[ci] is None else dict(CALL_SCOPES[ci])
+        call = mk_call_scope(CALL_SCOPES[ci])
         kw = {} if call is None else {'scope': call}
-        o, c = own or {}, call or {}
+        o, c = own or {}, flat_call_scope(CALL_SCOPES[ci])
         if kind == 'first':
             want = 5 if c.get('k') else None      # the key spec reads S.k: every item matches, or none
             got = glom([5, 7], sp, **kw)
@@ -533,7 +553,7 @@ def run_entry(case):
         if got != want:
             return R({'expected': 'call %d sees exactly its own scope= and the Spec\'s: %r' % (i, want), 'observed': repr(got),
                       'history': repr(steps[:i + 1]), 'own': repr(own_before), 'kind': kind, 'variant': variant}, 'leak')
-        if call is not None and call != CALL_SCOPES[ci]:
+        if call is not None and dict(call) != flat_call_scope(CALL_SCOPES[ci]):
             return R({'expected': 'the caller\'s scope mapping is not modified', 'observed': repr(call), 'history': repr(steps[:i + 1])}, 'caller-scope-modified')
         if own != own_before:
             return R({'expected': 'the mapping given to Spec(scope=) is not modified: %r' % (own_before,), 'observed': repr(own),
